@@ -48,17 +48,9 @@ func batchSrc(prop string, cases [][]string, out *bufio.Writer) {
 		isolatedCases(prop, cases, 1, out, one)
 		return
 	}
-	// dump mode ends in log.Panic (= os.Exit) on read errors: those cases run in child processes
-	var dumps, rest [][]string
-	for _, c := range cases {
-		if c[1] == "dump" {
-			dumps = append(dumps, c)
-		} else {
-			rest = append(rest, c)
-		}
-	}
-	isolatedCases(prop, dumps, 16, out, one)
-	parallelCases(rest, workers, out, func(c []string) string { return c[0] + " " + one(c) })
+	// the hand-off code ends in log.Panic (= os.Exit) on read errors: every case runs in a child process
+	isolatedCases(prop, cases, 24, out, one)
+	_ = workers
 }
 
 func runSrc(c []string, id int, tmp string) string {
